@@ -234,6 +234,19 @@ Example C16_pattern_case_example :
   wmatch [97;42] [97;76] = true.
 Proof. vm_compute. repeat split; reflexivity. Qed.
 
+(* Allowed-signers option NAMES (cert-authority, namespaces, valid-after, valid-before) are
+   case-insensitive: two spellings with the same ASCII lower-casing are the same option, so a line
+   written Cert-Authority is a CA line.  (Values are kept as written: C16_pattern_literal_exact.) *)
+Theorem C16_option_name_case_insensitive : forall n n',
+  map ascii_lower n = map ascii_lower n' -> as_opt_kind n = as_opt_kind n'.
+Proof. exact as_opt_kind_case. Qed.
+Print Assumptions C16_option_name_case_insensitive.
+
+Example C16_option_name_example :
+  as_opt_kind [67;101;114;116;45;65;117;116;104;111;114;105;116;121] = OCertAuthority /\
+  as_opt_kind [78;65;77;69;83;80;65;67;69;83] = ONamespaces /\ as_opt_kind [99;101;114;116] = OOther.
+Proof. vm_compute. repeat split; reflexivity. Qed.
+
 (* --- time values (misc.parse_time) ------------------------------------------------------------- *)
 
 (* A limit written with a trailing Z denotes that UTC instant whatever the process time zone is;
